@@ -739,6 +739,32 @@ def r17_9_standard_letters(ctx: Ctx) -> RuleResult:
             rr.ok({"parser": cname, "letter": letter, "selects": unparse(e).split(".")[-1], "text": text})
         else:
             rr.fail(f.qual, f"standard pattern {letter!r} selects `{unparse(e).split('.')[-1]}` with text {text!r}, which is not the documented shape for that letter", ctx.loc(f, r))
+    # standard letters that are expanded to a pattern TEXT (the instant parser replaces "g" by a constant and parses that)
+    ip = M.cls("_InstantPatternParser", required=True)
+    f = M.find_method(ip, "parse_pattern")
+    rr.inst()
+    texts = []
+    for n in own_nodes(f.node):
+        if isinstance(n, ast.match_case) and isinstance(n.pattern, ast.MatchValue) and isinstance(n.pattern.value, ast.Constant) and n.pattern.value.value == "g":
+            for s in n.body:
+                if isinstance(s, ast.Assign):
+                    v = M.fold(s.value, ip, ip.mod)
+                    if isinstance(v, str):
+                        texts.append((v, s))
+        if isinstance(n, ast.If) and "'g'" in unparse(n.test):
+            for s in n.body:
+                if isinstance(s, ast.Assign):
+                    v = M.fold(s.value, ip, ip.mod)
+                    if isinstance(v, str):
+                        texts.append((v, s))
+    if len(texts) != 1:
+        raise AnalysisError(f"{f.qual}: expansion of the standard pattern 'g' not found")
+    text, node = texts[0]
+    got = _merge(_literal_T(ctx, tokenize(text)))
+    if got == EXPECTED["InstantPattern.general"]:
+        rr.ok({"parser": ip.name, "letter": "g", "expands to": text})
+    else:
+        rr.fail(f.qual, f"standard pattern 'g' expands to {text!r}, which is not uuuu-MM-ddTHH:mm:ssZ (absolute year `u`: year-of-era `y` writes 1 BCE and 1 CE alike)", ctx.loc(f, node))
     return rr
 
 
